@@ -1,11 +1,12 @@
 /-
   C03  End-to-end messaging: exactly-once authentic delivery, only ciphertext on the wire.
-  Property theorems only (lemmas: Lemmas/E2E.lean, Lemmas/E2ESteps.lean, Lemmas/E2ETokens.lean) about the system model
+  Property theorems only (lemmas: Lemmas/E2E.lean, Lemmas/E2ESteps.lean, Lemmas/E2ETokens.lean, Lemmas/E2ETokFaults.lean) about the system model
   Model/E2E.lean: any number of accounts and groups, arbitrary conversation scripts (`appSend`), every schedule of the
   server's per-account FIFO queues (`process`, `deliver`), the two server faults (`deliver … dup / corrupt`, at most one
   per message and recipient) and restarts at quiescence — all as one action list restricted only by `AllowedRun`.
 -/
 import YowsupVerif.Lemmas.E2ETokens
+import YowsupVerif.Lemmas.E2ETokFaults
 import YowsupVerif.Lemmas.E2ESteps
 namespace Yow.E2E
 
@@ -26,13 +27,29 @@ theorem C03_shown_is_authentic_and_intended (accts : List Acct) (groups : List (
       ∃ a n, (a, n) ∈ s.submitted ∧ n.id = x.id ∧ n.payload = x.payload ∧ r ∈ intended s a n ∧ OriginOf a n x.peer x.participant :=
   shown_is_genuine accts groups hw acts ha
 
-/-- Exactly once, with receipts (fault-free part): for every configuration whose groups list each member once, every script of at most 100 messages, every schedule and every
-    restart at quiescence, whenever the server's queues are empty every submitted message has been shown exactly once to
-    each intended recipient and the sender's application holds exactly one delivery receipt from each of them; and as long
-    as the queues are not empty the server can act.  The statement with the two server faults is kept visible below
-    (`C03_duplicate_shown_once`, `C03_corrupt_triggers_retry`: the local reactions, for every state) — a conservation law
-    that also counts duplicated and damaged copies is not proved (partial). -/
-theorem C03_exactly_once_with_receipts_partial (accts : List Acct) (groups : List (Nat × List Acct)) (hw : WFConfig accts groups)
+/-- Exactly once, with receipts — the property at full strength: for every configuration whose groups list each member
+    once, every script of at most 100 messages (the property's own bound: fewer than 100 unacknowledged messages), every
+    schedule, every restart at quiescence AND every use of the two server faults the alphabet allows (a message delivered
+    twice; one damaged ciphertext per message), whenever the server's queues are empty every submitted message has been
+    shown exactly once to each intended recipient and the sender's application holds a delivery receipt from each of them
+    (a duplicated delivery is acknowledged again, so there may be more than one); and as long as the queues are not empty
+    the server can act. -/
+theorem C03_exactly_once_with_receipts (accts : List Acct) (groups : List (Nat × List Acct)) (hw : WFConfig accts groups)
+    (hnd : ∀ g ∈ groups, g.2.Nodup) (acts : List Act) (ha : AllowedRun (initSys accts groups) acts = true) (hn : sendCount acts ≤ 100) :
+    let s := run (initSys accts groups) acts
+    (quiescent s = true →
+      ∀ a n, (a, n) ∈ s.submitted → ∀ r, r ∈ intended s a n →
+        shownCount s r n.id = 1 ∧
+        1 ≤ ((getClient s a).receipts.filter (fun e =>
+          e.1 == n.id && e.2.2.2 == RType.delivery && (e.2.2.1 == some r || (e.2.2.1.isNone && e.2.1 == Dest.user r)))).length) ∧
+    (quiescent s = false → ∃ a, Allowed s (.process a) = true ∨ Allowed s (.deliver a .none) = true) := by
+  intro s
+  exact ⟨exactly_once_with_faults accts groups hw hnd acts ha hn,
+         fun h => not_quiescent_enabled s (queueKeys_run accts groups acts) h⟩
+
+/-- Without faults the count of receipts is exact: every submitted message has been shown exactly once to each intended
+    recipient and the sender's application holds exactly one delivery receipt from each of them. -/
+theorem C03_exactly_once_one_receipt_fault_free (accts : List Acct) (groups : List (Nat × List Acct)) (hw : WFConfig accts groups)
     (hnd : ∀ g ∈ groups, g.2.Nodup) (acts : List Act) (ha : AllowedRun (initSys accts groups) acts = true) (hf : NoFault acts = true) (hn : sendCount acts ≤ 100) :
     let s := run (initSys accts groups) acts
     (quiescent s = true →
@@ -86,6 +103,18 @@ example :
     let acts : List Act := [.appSend 1 { id := 100, dest := .user 2, payload := { isMedia := false, content := 5 } },
       .process 1, .deliver 1 .none, .process 1, .deliver 1 .none, .deliver 2 .none, .process 2, .deliver 1 .none, .deliver 2 .none, .process 1]
     AllowedRun (initSys [1, 2] []) acts = true ∧ NoFault acts = true ∧ quiescent (run (initSys [1, 2] []) acts) = true ∧
+    shownCount (run (initSys [1, 2] []) acts) 2 100 = 1 := by decide
+
+/-- non-vacuity with faults: a first message whose ciphertext is damaged on delivery (retry, served, shown once), and one that is
+    delivered twice (shown once), both run to quiescence: the hypotheses of `C03_exactly_once_with_receipts` hold with
+    `NoFault acts = false` -/
+example :
+    let acts : List Act := [.appSend 1 { id := 100, dest := .user 2, payload := { isMedia := false, content := 5 } }, .process 1, .deliver 1 .none, .process 1, .deliver 2 .corrupt, .deliver 1 .none, .process 2, .deliver 1 .none, .process 1, .process 1, .deliver 1 .none, .process 1, .deliver 1 .none, .deliver 2 .none, .deliver 2 .none, .process 2, .deliver 1 .none, .process 1, .deliver 2 .none]
+    AllowedRun (initSys [1, 2] []) acts = true ∧ NoFault acts = false ∧ quiescent (run (initSys [1, 2] []) acts) = true ∧
+    shownCount (run (initSys [1, 2] []) acts) 2 100 = 1 := by decide
+example :
+    let acts : List Act := [.appSend 1 { id := 100, dest := .user 2, payload := { isMedia := false, content := 5 } }, .process 1, .deliver 1 .none, .process 1, .deliver 2 .dup, .deliver 1 .none, .process 2, .deliver 1 .none, .process 1, .deliver 2 .none, .process 2, .deliver 1 .none, .process 1, .deliver 2 .none, .deliver 2 .none]
+    AllowedRun (initSys [1, 2] []) acts = true ∧ NoFault acts = false ∧ quiescent (run (initSys [1, 2] []) acts) = true ∧
     shownCount (run (initSys [1, 2] []) acts) 2 100 = 1 := by decide
 
 end Yow.E2E
